@@ -1,6 +1,103 @@
 package main
 
-import "github.com/theparanoids/ysshra/verifharness/lib/ev"
+import (
+	"fmt"
+	"strings"
+	"time"
 
-// shimListing checks the comments attached by the shim agent's listing (filled in once lib/wire exists).
-var shimListing = func(r *ev.Run) {}
+	"golang.org/x/crypto/ssh/agent"
+
+	"github.com/theparanoids/ysshra/agent/shimagent"
+	"github.com/theparanoids/ysshra/verifharness/lib/ev"
+	"github.com/theparanoids/ysshra/verifharness/lib/gen"
+	"github.com/theparanoids/ysshra/verifharness/lib/wire"
+)
+
+// shimListing checks the comments attached by the shim agent's listing: for a
+// certificate of a known type the comment starts with the label (type name,
+// "SSH-", transaction id), followed by "-<original comment>" if there is one; a
+// certificate of the unknown type keeps its comment.
+func shimListing(r *ev.Run) {
+	if !r.Want("shimlist") {
+		return
+	}
+	gen.Pool()
+	now := uint64(time.Now().Unix())
+	idx := 0
+	for fl := 0; fl < 16; fl++ {
+		for _, tp := range []int{0, 1, 2, 3, 4} {
+			for opt := 0; opt < 4; opt++ {
+				a := attrs{FF: fl&1 != 0, HW: fl&2 != 0, Headless: fl&4 != 0, Nonce: fl&8 != 0, Touch: tp, Opt: opt}
+				c := r.Case("shimlist", idx)
+				idx++
+				if c == nil {
+					continue
+				}
+				r.Guard(c, "shim listing", a, func() {
+					ag := wire.New()
+					defer ag.Close()
+					sock, _ := ag.Listen()
+					s, err := shimagent.New(shimagent.Option{Address: sock})
+					if err != nil {
+						r.Violation(c, "shim-construction-fails", err.Error(), a)
+						return
+					}
+					defer s.Close()
+					want := refType(a)
+					for _, viaHard := range []bool{false, true} {
+						k := gen.PickKey(c.Rand)
+						transID := gen.Ident(c.Rand, 10)
+						comment := []string{"", "laptop", "a-b c"}[c.Rand.Intn(3)]
+						tmpl := mkCert(a, transID, []string{"u"}, "u")
+						cert := gen.MakeCert(gen.CertSpec{Key: k, KeyID: tmpl.KeyId, ValidAfter: now - 100, ValidBefore: now + 1000, CritOpts: tmpl.CriticalOptions, Serial: uint64(c.Rand.Int63())})
+						ag.Keyring.RemoveAll()
+						s.RemoveAll()
+						if viaHard {
+							ag.Keyring.Add(agent.AddedKey{PrivateKey: k.Priv, Comment: "plain"})
+							if err := s.AddHardCert(cert, comment); err != nil {
+								r.Violation(c, "add-hard-cert-fails", err.Error(), a)
+								return
+							}
+						} else {
+							ag.Keyring.Add(agent.AddedKey{PrivateKey: k.Priv, Certificate: cert, Comment: comment})
+						}
+						r.Eval(1)
+						keys, err := s.List()
+						if err != nil {
+							r.Violation(c, "list-fails", err.Error(), a)
+							return
+						}
+						found := false
+						for _, lk := range keys {
+							if string(lk.Blob) != string(cert.Marshal()) {
+								continue
+							}
+							found = true
+							exp := comment
+							if want != tUnknown {
+								exp = refName[want] + "SSH-" + transID
+								if comment != "" {
+									exp += "-" + comment
+								}
+							}
+							if lk.Comment != exp {
+								r.Violation(c, fmt.Sprintf("listing-comment-mismatch:hard=%v:type=%s", viaHard, refName[want]), fmt.Sprintf("comment %q, expected %q for %+v", lk.Comment, exp, a), a)
+								return
+							}
+							if want != tUnknown && !strings.HasPrefix(lk.Comment, refName[want]+"SSH-"+transID) {
+								r.Violation(c, "listing-comment-lacks-label", lk.Comment, a)
+								return
+							}
+						}
+						if !found {
+							r.Violation(c, "certificate-not-listed", fmt.Sprintf("%+v hard=%v", a, viaHard), a)
+							return
+						}
+						r.Count("shim listing comments checked", 1)
+					}
+					r.Nontrivial(fmt.Sprintf("shimlist:%+v", a))
+				})
+			}
+		}
+	}
+}
